@@ -421,18 +421,33 @@ func mergeShape(c *Ctx, m *ssa.Function) {
 		return
 	}
 	acc, nw := m.Params[0], m.Params[1]
+	// the incoming value: passed by value (then it lives in its spill cell) or by pointer
+	var newObj ssa.Value = nw
 	newCell := ssa.Value(nil)
-	for _, r := range *nw.Referrers() {
-		if st, ok := r.(*ssa.Store); ok && st.Val == ssa.Value(nw) {
-			newCell = st.Addr
+	if _, isPtr := nw.Type().Underlying().(*types.Pointer); !isPtr {
+		for _, r := range *nw.Referrers() {
+			if st, ok := r.(*ssa.Store); ok && st.Val == ssa.Value(nw) {
+				newCell = st.Addr
+			}
 		}
+		if newCell != nil {
+			newObj = newCell
+		}
+	}
+	isNewField := func(v ssa.Value, field string) bool {
+		ld, ok := v.(*ssa.UnOp)
+		if !ok || ld.Op != token.MUL {
+			return false
+		}
+		fa, ok := ld.X.(*ssa.FieldAddr)
+		return ok && fa.X == newObj && fieldName(fa.X.Type(), fa.Field) == field
 	}
 	var idStore, wholeStore *ssa.Store
 	var others []string
 	for _, b := range m.Blocks {
 		for _, in := range b.Instrs {
 			st, ok := in.(*ssa.Store)
-			if !ok || st.Addr == newCell {
+			if !ok || (newCell != nil && st.Addr == newCell) {
 				continue
 			}
 			switch a := st.Addr.(type) {
@@ -453,25 +468,17 @@ func mergeShape(c *Ctx, m *ssa.Function) {
 			}
 		}
 	}
-	okID := idStore != nil && idStore.Block() == m.Blocks[0]
-	if okID {
-		// value: new.ID
-		okID = strings.HasSuffix(canon(idStore.Val), ".ID)")
-	}
+	okID := idStore != nil && idStore.Block() == m.Blocks[0] && isNewField(idStore.Val, "ID")
 	c.Check(okID, "MERGE", fname, "identifier always taken", p.pos(m.Pos()), "acc.ID = new.ID on every path", "the accumulator's identifier is not set from every mention")
 	okWhole := false
 	if wholeStore != nil {
 		for _, ce := range dominatingConds(wholeStore.Block()) {
-			cond, val := ce.Cond, ce.Val
-			if u, isNot := cond.(*ssa.UnOp); isNot && u.Op == token.NOT {
-				cond, val = u.X, !val
-			}
-			if strings.HasSuffix(canon(cond), ".IsEntityInMessage)") && strings.Contains(canon(cond), canon(newCell)) && val {
+			if ce.Val && isNewField(ce.Cond, "IsEntityInMessage") {
 				okWhole = true
 			}
 		}
-		// stored value is the new value
-		if ld, ok := wholeStore.Val.(*ssa.UnOp); !ok || ld.X != newCell {
+		// stored value is the new value: a load of the whole incoming object
+		if ld, ok := wholeStore.Val.(*ssa.UnOp); !ok || ld.Op != token.MUL || ld.X != newObj {
 			if wholeStore.Val != ssa.Value(nw) {
 				okWhole = false
 			}
@@ -491,10 +498,13 @@ func checkMergedOnAllPaths(r *rtCtx, merge *ssa.Function, typ, what string) {
 	for b := range r.entity.Blocks {
 		for _, in := range b.Instrs {
 			if call, ok := in.(*ssa.Call); ok && staticCallee(call) == merge {
-				if ld, ok := call.Call.Args[1].(*ssa.UnOp); ok && ld.Op == token.MUL {
-					if phi, isPhi := ld.X.(*ssa.Phi); isPhi && r.entity.Blocks[phi.Block()] {
-						parsed = phi
-					}
+				// the merged value: *x (passed by value) or x itself (passed by pointer), x the parsers' result
+				arg := call.Call.Args[1]
+				if ld, ok := arg.(*ssa.UnOp); ok && ld.Op == token.MUL {
+					arg = ld.X
+				}
+				if phi, isPhi := arg.(*ssa.Phi); isPhi && r.entity.Blocks[phi.Block()] {
+					parsed = phi
 				}
 			}
 		}
@@ -534,7 +544,7 @@ func checkMergedOnAllPaths(r *rtCtx, merge *ssa.Function, typ, what string) {
 		for i, b := range path {
 			for _, in := range b.Instrs {
 				if call, isCall := in.(*ssa.Call); isCall && staticCallee(call) == merge {
-					if ld, isLd := call.Call.Args[1].(*ssa.UnOp); isLd && ld.X == parsed {
+					if ld, isLd := call.Call.Args[1].(*ssa.UnOp); (isLd && ld.X == parsed) || call.Call.Args[1] == parsed {
 						merged = true
 					}
 				}
